@@ -14,12 +14,12 @@
         /// the decoder looks only at the bytes it consumes
         spec fn self_delimiting() -> bool;
 
-        //@ fn src:zvt_builder/src/encoding.rs | trait Encoding | encode | sig
+        //@ fn src:zvt_builder/src/encoding.rs | trait Encoding | encode | sig props=C17,C03
         //@ tag enc.exact C17 C03
             requires Self::enc_ok(input),
             ensures r@ =~= Self::spec_enc(input),
         //@ end
-        //@ fn src:zvt_builder/src/encoding.rs | trait Encoding | decode | sig props=C02
+        //@ fn src:zvt_builder/src/encoding.rs | trait Encoding | decode | sig props=C02,C17
             ensures
         //@ tag dec.ok C17 C14
                 Self::spec_dec(bytes@) matches Some((v, k)) ==> (r matches Ok((v2, rest)) && v2 == v && 0 <= k <= bytes@.len() && rest@ =~= bytes@.skip(k)),
@@ -67,9 +67,9 @@
             } else { Some((Tag(b[0] as u16), 1)) }
         }
         open spec fn progresses() -> bool { true }
-        //@ fn src:zvt_builder/src/encoding.rs | impl encoding::Encoding<Tag> for Default | encode
+        //@ fn src:zvt_builder/src/encoding.rs | impl encoding::Encoding<Tag> for Default | encode | props=C17,C03
         //@ end
-        //@ fn src:zvt_builder/src/encoding.rs | impl encoding::Encoding<Tag> for Default | decode | props=C02
+        //@ fn src:zvt_builder/src/encoding.rs | impl encoding::Encoding<Tag> for Default | decode | props=C02,C17
         //@ end
         open spec fn self_delimiting() -> bool { true }
         proof fn law_dec_bounds(b: Seq<u8>) {}
@@ -95,9 +95,9 @@
             if b.len() < 2 { None } else { Some((Tag(be_val2(b.subrange(0, 2)) as u16), 2)) }
         }
         open spec fn progresses() -> bool { true }
-        //@ fn src:zvt_builder/src/encoding.rs | impl encoding::Encoding<Tag> for BigEndian | encode
+        //@ fn src:zvt_builder/src/encoding.rs | impl encoding::Encoding<Tag> for BigEndian | encode | props=C17,C03
         //@ end
-        //@ fn src:zvt_builder/src/encoding.rs | impl encoding::Encoding<Tag> for BigEndian | decode | props=C02
+        //@ fn src:zvt_builder/src/encoding.rs | impl encoding::Encoding<Tag> for BigEndian | decode | props=C02,C17
         //@ end
         open spec fn self_delimiting() -> bool { true }
         proof fn law_dec_bounds(b: Seq<u8>) {}
@@ -126,9 +126,9 @@
             match E::spec_dec(b) { None => None, Some((v, k)) => Some((Some(v), k)) }
         }
         open spec fn progresses() -> bool { E::progresses() }
-        //@ fn src:zvt_builder/src/encoding.rs | impl Encoding<Option<T>> for E | decode | props=C02
+        //@ fn src:zvt_builder/src/encoding.rs | impl Encoding<Option<T>> for E | decode | props=C02,C17
         //@ end
-        //@ fn src:zvt_builder/src/encoding.rs | impl Encoding<Option<T>> for E | encode
+        //@ fn src:zvt_builder/src/encoding.rs | impl Encoding<Option<T>> for E | encode | props=C17,C03
         //@ end
         open spec fn self_delimiting() -> bool { E::self_delimiting() }
         proof fn law_dec_bounds(b: Seq<u8>) { E::law_dec_bounds(b); }
@@ -154,9 +154,9 @@
             match vec_blanket_dec::<T, E>(b) { Some((v, k)) => if 0 <= k <= b.len() { Some((v, k)) } else { None }, None => None }
         }
         open spec fn progresses() -> bool { false }
-        //@ fn src:zvt_builder/src/encoding.rs | impl Encoding<Vec<T>> for E | encode | ext
+        //@ fn src:zvt_builder/src/encoding.rs | impl Encoding<Vec<T>> for E | encode | ext props=C17,C03
         //@ end
-        //@ fn src:zvt_builder/src/encoding.rs | impl Encoding<Vec<T>> for E | decode | ext
+        //@ fn src:zvt_builder/src/encoding.rs | impl Encoding<Vec<T>> for E | decode | ext props=C02,C17
         //@ end
         open spec fn self_delimiting() -> bool { false }
         proof fn law_dec_bounds(b: Seq<u8>) {}
@@ -177,9 +177,9 @@
         /// total; consumes the entire input
         open spec fn spec_dec(b: Seq<u8>) -> Option<(String, int)> { Some((cp437_dec(b), b.len() as int)) }
         open spec fn progresses() -> bool { false }
-        //@ fn src:zvt_builder/src/encoding.rs | impl Encoding<String> for Default | encode | ext
+        //@ fn src:zvt_builder/src/encoding.rs | impl Encoding<String> for Default | encode | ext props=C17,C03
         //@ end
-        //@ fn src:zvt_builder/src/encoding.rs | impl Encoding<String> for Default | decode | ext
+        //@ fn src:zvt_builder/src/encoding.rs | impl Encoding<String> for Default | decode | ext props=C02,C17
         //@ end
         open spec fn self_delimiting() -> bool { false }
         proof fn law_dec_bounds(b: Seq<u8>) {}
@@ -198,9 +198,9 @@
         open spec fn spec_enc(v: &String) -> Seq<u8> { hex_enc(v) }
         open spec fn spec_dec(b: Seq<u8>) -> Option<(String, int)> { Some((hex_dec(b), b.len() as int)) }
         open spec fn progresses() -> bool { false }
-        //@ fn src:zvt_builder/src/encoding.rs | impl Encoding<String> for Hex | encode | ext
+        //@ fn src:zvt_builder/src/encoding.rs | impl Encoding<String> for Hex | encode | ext props=C17,C03
         //@ end
-        //@ fn src:zvt_builder/src/encoding.rs | impl Encoding<String> for Hex | decode | ext
+        //@ fn src:zvt_builder/src/encoding.rs | impl Encoding<String> for Hex | decode | ext props=C02,C17
         //@ end
         open spec fn self_delimiting() -> bool { false }
         proof fn law_dec_bounds(b: Seq<u8>) {}
@@ -217,9 +217,9 @@
         open spec fn deser_progresses(tag: Option<Tag>) -> bool { tag is Some && TE::progresses() }
         open spec fn deser_defined(b: Seq<u8>, tag: Option<Tag>) -> bool { default_spec_deser::<Self, L, E, TE>(b, tag) is Some }
         open spec fn deser_ok(b: Seq<u8>, tag: Option<Tag>, v: Self, k: int) -> bool { default_spec_deser::<Self, L, E, TE>(b, tag) == Some((v, k)) }
-        //@ fn src:zvt_builder/src/lib.rs | trait ZvtSerializerImpl | serialize_tagged
+        //@ fn src:zvt_builder/src/lib.rs | trait ZvtSerializerImpl | serialize_tagged | props=C03,C01
         //@ end
-        //@ fn src:zvt_builder/src/lib.rs | trait ZvtSerializerImpl | deserialize_tagged | props=C02
+        //@ fn src:zvt_builder/src/lib.rs | trait ZvtSerializerImpl | deserialize_tagged | props=C02,C14
         //@ end
     }
     impl<L: length::Length, E: encoding::Encoding<u16>, TE: encoding::Encoding<Tag>> ZvtSerializerImpl<L, E, TE> for u16 {
@@ -229,9 +229,9 @@
         open spec fn deser_progresses(tag: Option<Tag>) -> bool { tag is Some && TE::progresses() }
         open spec fn deser_defined(b: Seq<u8>, tag: Option<Tag>) -> bool { default_spec_deser::<Self, L, E, TE>(b, tag) is Some }
         open spec fn deser_ok(b: Seq<u8>, tag: Option<Tag>, v: Self, k: int) -> bool { default_spec_deser::<Self, L, E, TE>(b, tag) == Some((v, k)) }
-        //@ fn src:zvt_builder/src/lib.rs | trait ZvtSerializerImpl | serialize_tagged
+        //@ fn src:zvt_builder/src/lib.rs | trait ZvtSerializerImpl | serialize_tagged | props=C03,C01
         //@ end
-        //@ fn src:zvt_builder/src/lib.rs | trait ZvtSerializerImpl | deserialize_tagged | props=C02
+        //@ fn src:zvt_builder/src/lib.rs | trait ZvtSerializerImpl | deserialize_tagged | props=C02,C14
         //@ end
     }
     impl<L: length::Length, E: encoding::Encoding<u32>, TE: encoding::Encoding<Tag>> ZvtSerializerImpl<L, E, TE> for u32 {
@@ -241,9 +241,9 @@
         open spec fn deser_progresses(tag: Option<Tag>) -> bool { tag is Some && TE::progresses() }
         open spec fn deser_defined(b: Seq<u8>, tag: Option<Tag>) -> bool { default_spec_deser::<Self, L, E, TE>(b, tag) is Some }
         open spec fn deser_ok(b: Seq<u8>, tag: Option<Tag>, v: Self, k: int) -> bool { default_spec_deser::<Self, L, E, TE>(b, tag) == Some((v, k)) }
-        //@ fn src:zvt_builder/src/lib.rs | trait ZvtSerializerImpl | serialize_tagged
+        //@ fn src:zvt_builder/src/lib.rs | trait ZvtSerializerImpl | serialize_tagged | props=C03,C01
         //@ end
-        //@ fn src:zvt_builder/src/lib.rs | trait ZvtSerializerImpl | deserialize_tagged | props=C02
+        //@ fn src:zvt_builder/src/lib.rs | trait ZvtSerializerImpl | deserialize_tagged | props=C02,C14
         //@ end
     }
     impl<L: length::Length, E: encoding::Encoding<u64>, TE: encoding::Encoding<Tag>> ZvtSerializerImpl<L, E, TE> for u64 {
@@ -253,9 +253,9 @@
         open spec fn deser_progresses(tag: Option<Tag>) -> bool { tag is Some && TE::progresses() }
         open spec fn deser_defined(b: Seq<u8>, tag: Option<Tag>) -> bool { default_spec_deser::<Self, L, E, TE>(b, tag) is Some }
         open spec fn deser_ok(b: Seq<u8>, tag: Option<Tag>, v: Self, k: int) -> bool { default_spec_deser::<Self, L, E, TE>(b, tag) == Some((v, k)) }
-        //@ fn src:zvt_builder/src/lib.rs | trait ZvtSerializerImpl | serialize_tagged
+        //@ fn src:zvt_builder/src/lib.rs | trait ZvtSerializerImpl | serialize_tagged | props=C03,C01
         //@ end
-        //@ fn src:zvt_builder/src/lib.rs | trait ZvtSerializerImpl | deserialize_tagged | props=C02
+        //@ fn src:zvt_builder/src/lib.rs | trait ZvtSerializerImpl | deserialize_tagged | props=C02,C14
         //@ end
     }
     impl<L: length::Length, E: encoding::Encoding<usize>, TE: encoding::Encoding<Tag>> ZvtSerializerImpl<L, E, TE> for usize {
@@ -265,9 +265,9 @@
         open spec fn deser_progresses(tag: Option<Tag>) -> bool { tag is Some && TE::progresses() }
         open spec fn deser_defined(b: Seq<u8>, tag: Option<Tag>) -> bool { default_spec_deser::<Self, L, E, TE>(b, tag) is Some }
         open spec fn deser_ok(b: Seq<u8>, tag: Option<Tag>, v: Self, k: int) -> bool { default_spec_deser::<Self, L, E, TE>(b, tag) == Some((v, k)) }
-        //@ fn src:zvt_builder/src/lib.rs | trait ZvtSerializerImpl | serialize_tagged
+        //@ fn src:zvt_builder/src/lib.rs | trait ZvtSerializerImpl | serialize_tagged | props=C03,C01
         //@ end
-        //@ fn src:zvt_builder/src/lib.rs | trait ZvtSerializerImpl | deserialize_tagged | props=C02
+        //@ fn src:zvt_builder/src/lib.rs | trait ZvtSerializerImpl | deserialize_tagged | props=C02,C14
         //@ end
     }
     impl<L: length::Length, E: encoding::Encoding<String>, TE: encoding::Encoding<Tag>> ZvtSerializerImpl<L, E, TE> for String {
@@ -277,8 +277,8 @@
         open spec fn deser_progresses(tag: Option<Tag>) -> bool { tag is Some && TE::progresses() }
         open spec fn deser_defined(b: Seq<u8>, tag: Option<Tag>) -> bool { default_spec_deser::<Self, L, E, TE>(b, tag) is Some }
         open spec fn deser_ok(b: Seq<u8>, tag: Option<Tag>, v: Self, k: int) -> bool { default_spec_deser::<Self, L, E, TE>(b, tag) == Some((v, k)) }
-        //@ fn src:zvt_builder/src/lib.rs | trait ZvtSerializerImpl | serialize_tagged
+        //@ fn src:zvt_builder/src/lib.rs | trait ZvtSerializerImpl | serialize_tagged | props=C03,C01
         //@ end
-        //@ fn src:zvt_builder/src/lib.rs | trait ZvtSerializerImpl | deserialize_tagged | props=C02
+        //@ fn src:zvt_builder/src/lib.rs | trait ZvtSerializerImpl | deserialize_tagged | props=C02,C14
         //@ end
     }
